@@ -191,22 +191,6 @@ func c42Collect(ss storage.SeriesSet, seekTargets []int64) ([]c42Series, string,
 			if seekProblem != "" {
 				break
 			}
-			it = s.Iterator(it)
-			var got []string
-			vt := it.Seek(target)
-			if vt != chunkenc.ValNone {
-				_, x := c42SampleStr(it, vt)
-				got = append(got, x)
-				// Seek to the same or an earlier time must not move
-				if vt2 := it.Seek(target - 1); vt2 != vt {
-					seekProblem = fmt.Sprintf("series %s: Seek(%d) after Seek(%d) changed the value type %v -> %v", s.Labels(), target-1, target, vt, vt2)
-				}
-				rest, err := c42Drain(it)
-				if err != nil {
-					return nil, "", err
-				}
-				got = append(got, rest...)
-			}
 			var want []string
 			for _, x := range smp {
 				var t int64
@@ -215,8 +199,41 @@ func c42Collect(ss storage.SeriesSet, seekTargets []int64) ([]c42Series, string,
 					want = append(want, x)
 				}
 			}
-			if fmt.Sprint(got) != fmt.Sprint(want) {
-				seekProblem = fmt.Sprintf("series %s: Seek(%d)+Next yields %v, Next alone yields %v from there", s.Labels(), target, got, want)
+			// phase "seek-then-next": one Seek on a fresh iterator, then Next to the end.
+			// phase "repeated-seek": Seek, then Seeks that must not move (same and earlier target), then Next.
+			for _, phase := range []string{"seek-then-next", "repeated-seek"} {
+				it = s.Iterator(it)
+				var got []string
+				vt := it.Seek(target)
+				if vt != chunkenc.ValNone {
+					if phase == "repeated-seek" {
+						if vt2 := it.Seek(target); vt2 != vt {
+							seekProblem = fmt.Sprintf("%s: series %s: a second Seek(%d) changed the value type %v -> %v", phase, s.Labels(), target, vt, vt2)
+							break
+						}
+						if target != math.MinInt64 {
+							if vt2 := it.Seek(target - 1); vt2 != vt {
+								seekProblem = fmt.Sprintf("%s: series %s: Seek(%d) after Seek(%d) changed the value type %v -> %v", phase, s.Labels(), target-1, target, vt, vt2)
+								break
+							}
+						}
+					}
+					_, x := c42SampleStr(it, vt)
+					got = append(got, x)
+					rest, err := c42Drain(it)
+					if err != nil {
+						return nil, "", err
+					}
+					got = append(got, rest...)
+				}
+				if fmt.Sprint(c42StripHints(got)) != fmt.Sprint(c42StripHints(want)) {
+					np := ""
+					if target <= 0 {
+						np = "/non-positive-target"
+					}
+					seekProblem = fmt.Sprintf("%s%s: series %s: Seek(%d) [+ no-op Seeks] + Next yields %d samples %v, Next alone yields %d samples from there: %v", phase, np, s.Labels(), target, len(got), c42Times(got), len(want), c42Times(want))
+					break
+				}
 			}
 		}
 	}
@@ -270,7 +287,12 @@ func (e *c42Env) remote(c c42Case) (out []c42Series, seekProblem string, err err
 	cl := rc.(*Client)
 	cl.Client = &http.Client{Transport: c42RoundTripper{handler}}
 	ms := c42MatcherSets[c.Matchers]
-	targets := []int64{math.MinInt64, c.Lo - 1, c.Lo, c.Lo + 1, 39, 40, 41, 99, 100, 105, 120, 200, c.Hi, c.Hi + 1}
+	targets := []int64{c.Lo + 1, 39, 40, 41, 99, 100, 105, 120, 200, c.Hi, c.Lo, c.Lo - 1, math.MinInt64}
+	if c.Hi < math.MaxInt64 {
+		targets = append(targets, c.Hi+1)
+	}
+	// positive targets first, so that a problem that also shows with ordinary timestamps is reported as such
+	sort.Slice(targets, func(i, j int) bool { return targets[i] > targets[j] })
 	ctx := context.Background()
 	if c.Via == "querier" {
 		q, err := NewSampleAndChunkQueryableClient(cl, ext, nil, true, func() (int64, error) { return 0, nil }).Querier(c.Lo, c.Hi)
@@ -330,11 +352,33 @@ func c42Eval(r *vx.Run, e *c42Env, c c42Case) string {
 	for _, s := range got {
 		seen[s.Labels]++
 	}
+	dup := false
 	for _, l := range vx.SortedKeys(seen) {
 		if seen[l] > 1 {
-			r.Violation("series-returned-more-than-once/"+mode, fmt.Sprintf("case %+v: series %s is returned %d times by the client-side series set (local query: once). got %v", c, l, seen[l], c42Brief(got)), c)
-			return "dup-series"
+			// Known finding when the series was split over several frames (streamed response, the series'
+			// chunks exceed the maximum frame size): reported softly, then the pieces are joined so that
+			// the data comparison still happens.
+			sig := "series-returned-more-than-once/" + mode
+			if mode == "chunked" {
+				sig += "/series-split-over-frames"
+			}
+			r.Violation(sig, fmt.Sprintf("case %+v: series %s is returned %d times by the client-side series set (local query: once). got %v", c, l, seen[l], c42Brief(got)), c)
+			dup = true
+			if mode != "chunked" {
+				return "dup-series"
+			}
 		}
+	}
+	if dup {
+		var joined []c42Series
+		for _, s := range got {
+			if n := len(joined); n > 0 && joined[n-1].Labels == s.Labels {
+				joined[n-1].Samples = append(joined[n-1].Samples, s.Samples...)
+				continue
+			}
+			joined = append(joined, s)
+		}
+		got = joined
 	}
 	if len(got) != len(want) {
 		r.Violation("series-set-differs/"+mode, fmt.Sprintf("case %+v: remote read returns %d series %v, local query %d series %v", c, len(got), c42Brief(got), len(want), c42Brief(want)), c)
@@ -345,13 +389,18 @@ func c42Eval(r *vx.Run, e *c42Env, c c42Case) string {
 			r.Violation("series-labels-or-order-differ/"+mode, fmt.Sprintf("case %+v: position %d: remote %s, local %s", c, i, got[i].Labels, want[i].Labels), c)
 			return "labels-differ"
 		}
-		if fmt.Sprint(got[i].Samples) != fmt.Sprint(want[i].Samples) {
+		if msg := c42HintProblem(got[i].Samples, want[i].Samples); msg != "" {
+			r.Violation("histogram-counter-reset-hint-differs/"+mode, fmt.Sprintf("case %+v: series %s: %s", c, want[i].Labels, msg), c)
+			return "hint-differs"
+		}
+		if fmt.Sprint(c42StripHints(got[i].Samples)) != fmt.Sprint(c42StripHints(want[i].Samples)) {
 			r.Violation("samples-differ/"+mode, fmt.Sprintf("case %+v: series %s: remote read returns %v, local query %v", c, want[i].Labels, got[i].Samples, want[i].Samples), c)
 			return "samples-differ"
 		}
 	}
 	if seek != "" {
-		r.Violation("client-iterator-seek-inconsistent/"+mode, fmt.Sprintf("case %+v: %s", c, seek), c)
+		phase, rest, _ := strings.Cut(seek, ": ")
+		r.Violation("client-iterator-seek-inconsistent/"+mode+"/"+phase, fmt.Sprintf("case %+v: %s", c, rest), c)
 		return "seek"
 	}
 	n := 0
@@ -362,7 +411,56 @@ func c42Eval(r *vx.Run, e *c42Env, c c42Case) string {
 			kinds[x[strings.Index(x, "=")+1]] = true
 		}
 	}
+	if dup {
+		return fmt.Sprintf("ok-but-split/series%d/samples%d/kinds%d", min(len(want), 3), min(n, 9)/3, len(kinds))
+	}
 	return fmt.Sprintf("ok/series%d/samples%d/kinds%d", min(len(want), 3), min(n, 9)/3, len(kinds))
+}
+
+// c42StripHints removes the counter-reset hint from "t=h:<hint>|..." strings.
+func c42StripHints(in []string) []string {
+	out := make([]string, len(in))
+	for i, x := range in {
+		if k := strings.Index(x, "|"); k > 0 && !strings.Contains(x[:k], "=f:") {
+			x = x[:strings.LastIndex(x[:k], ":")+1] + x[k:]
+		}
+		out[i] = x
+	}
+	return out
+}
+
+// c42HintProblem: the remote hint must equal the local one, or be "unknown" (0) where the local
+// one is a counter hint: a chunk querier re-encodes a chunk that is cut by the range, and the first
+// histogram of a re-encoded chunk carries the weaker, always safe, unknown hint. A gauge hint (3)
+// must survive, and "reset"/"no reset" must never be swapped.
+func c42HintProblem(got, want []string) string {
+	if len(got) != len(want) {
+		return ""
+	}
+	hint := func(x string) string {
+		k := strings.Index(x, "|")
+		if k < 0 || strings.Contains(x[:k], "=f:") {
+			return ""
+		}
+		return x[strings.LastIndex(x[:k], ":")+1 : k]
+	}
+	for i := range want {
+		g, w := hint(got[i]), hint(want[i])
+		if g == w || (g == "0" && (w == "1" || w == "2")) {
+			continue
+		}
+		return fmt.Sprintf("sample %d: remote hint %s, local hint %s (%s)", i, g, w, want[i][:strings.Index(want[i], "|")])
+	}
+	return ""
+}
+
+func c42Times(in []string) []string {
+	out := make([]string, len(in))
+	for i, x := range in {
+		k := strings.Index(x, ":")
+		out[i] = x[:k]
+	}
+	return out
 }
 
 func c42Brief(in []c42Series) string {
@@ -462,7 +560,7 @@ func TestVerifC42(t *testing.T) {
 		outcomes[out]++
 		mu <- struct{}{}
 		r.Distinct("distinct_outcomes", out)
-		if strings.HasPrefix(out, "ok/") && !strings.HasPrefix(out, "ok/series0") {
+		if strings.HasPrefix(out, "ok") && !strings.Contains(out, "/series0/") {
 			r.Distinct("distinct_nontrivial", fmt.Sprintf("%s|%d|%d|%s", c.Matchers, c.Lo, c.Hi, c.Mode))
 		}
 		r.SampleAt(k, func() any { return map[string]any{"case": c, "outcome": out} })
